@@ -27,7 +27,8 @@ MANIFEST = {
             'parent/child scheduler pair; at every grant the ledger decides '
             'disjointness of cores, GPU share sums, lfs/mem capacity, blocked '
             'resources and agent nodes.'
-            "  Second session: layouts now include 0-2 sub-agent nodes and a service node (./services), and 'reserved node used' is decided from the agent/service node lists alone.",
+            "  Second session: layouts now include 0-2 sub-agent nodes and a service node (./services), and 'reserved node used' is decided from the agent/service node lists alone."
+            "  Third session: application-level histories ask for amounts which use a node's storage / memory up exactly, share cores (core_occupation < 1) and debit what the rank asked for.",
     'note': 'components run as threads over the in-memory transport; the fork '
             'is emulated by two objects sharing only the two queues; '
             'Continuous scheduler only (ContinuousJsrun uses another slot '
